@@ -3,7 +3,7 @@ CONSTANTS
   ReqHandles <- QuickReqHandles
   MaxLen = 3
   N1 = {0, 2}
-  N2 = {1, 2}
+  N2 = {1}
   S3 = {TRUE, FALSE}
   StoreIds <- QuickStoreIds
   FRefs <- QuickFRefs
